@@ -15,7 +15,7 @@ def _up_kinds(sc, ci, depth=0):
     for l in sc["links"]:
         if l.get("dst") and l["dst"][0] == ci:
             kinds |= {a["kind"] for a in l["chain"]}
-            if sc["components"][l["src"][0]]["kind"] == "pull" and depth < 5:
+            if sc["components"][l["src"][0]]["kind"] in ("pull", "wsum") and depth < 5:
                 kinds |= _up_kinds(sc, l["src"][0], depth + 1)
     return kinds
 
@@ -150,7 +150,7 @@ def run_e1(sc, scratch=None, value_check=True):
         dst_lab = f"{sc['components'][ci]['name']}.{sc['components'][ci]['inputs'][ii]['name']}"
         src_lab = f"{src['name']}.{src['outputs'][soi]['name']}"
         pred.setdefault((src_lab, dst_lab), set()).add(tr)
-        if src["kind"] == "pull":
+        if src["kind"] in ("pull", "wsum"):
             for jj in range(len(src["inputs"])):
                 _collect_pred(sci, jj, tr, pred, depth + 1)
 
@@ -172,7 +172,7 @@ def run_e1(sc, scratch=None, value_check=True):
     # online value check ------------------------------------------------------
     def check_value(ci, ii, k, t, val, initial=False):
         series.setdefault((ci, ii), []).append((k, t, val))
-        if sc["components"][ci]["kind"] == "pull" and not initial:
+        if sc["components"][ci]["kind"] in ("pull", "wsum") and not initial:
             return      # evaluated as part of the downstream consumer's expectation
         try:
             alts = model.expect(ci, ii, t, initial=initial)
@@ -295,8 +295,10 @@ def run_e1(sc, scratch=None, value_check=True):
     # it only applies when the merged stream really was non-monotone / carried duplicates
     prov = {}
     for e in rec.events:
-        if e[0] == "PROVIDER":
-            prov.setdefault(e[1], []).append(e[3])
+        # requests arriving at the outputs of pull-based components (stub or real) while running
+        if e[0] == "GET" and e[6] == "run" and e[1] and e[1].split(".")[0] in cidx and \
+                sc["components"][cidx[e[1].split(".")[0]]]["kind"] in ("pull", "wsum"):
+            prov.setdefault(e[1].split(".")[0], []).append(e[2])
     shared_ctx = {}
     for pname, ts in prov.items():
         pi = cidx[pname]
